@@ -147,7 +147,8 @@ func init() {
 			matchProbes = append(matchProbes, n)
 		}
 	}
-	for _, js := range []string{`[["==", ".a", 1]]`, `[["all", ".b", [">", ".", 0]]]`, `[["like", ".s", "h*o"]]`, `[["any", ".[]", ["==", ".c?", "x"]]]`,
+	for _, js := range []string{`[["==", ".s[1:]", "x"]]`, `[["like", ".s[:-1]", "*"]]`, `[["==", ".s[-2:]", "x"], ["==", ".s[0:1]", "y"]]`, `[["all", ".l", ["==", ".[1:]", "x"]]]`,
+		`[["==", ".a", 1]]`, `[["all", ".b", [">", ".", 0]]]`, `[["like", ".s", "h*o"]]`, `[["any", ".[]", ["==", ".c?", "x"]]]`,
 		`[["not", ["and", [["<", ".m.x", 2.0], ["or", [["==", ".[0]", 1], [">=", ".a[-1]?", 0]]]]]]]`, `[["==", ".b[1:]", [2]]]`} {
 		p, err := policy.FromDagJson(js)
 		if err == nil {
@@ -312,6 +313,15 @@ func hostileContainers() map[string][]byte {
 	out["cbor-map-list-2^40"] = append([]byte{0xa1, 0x66, 'c', 't', 'n', '-', 'v', '1', 0x9b}, []byte{0, 0, 1, 0, 0, 0, 0, 0}...)
 	out["cbor-bytes-2^40"] = append([]byte{0xa1, 0x66, 'c', 't', 'n', '-', 'v', '1', 0x81, 0x5b}, []byte{0, 0, 1, 0, 0, 0, 0, 0}...)
 	out["cbor-map-2^60"] = append([]byte{0xbb}, []byte{0x10, 0, 0, 0, 0, 0, 0, 0}...)
+	// argument data whose text strings are not valid UTF-8 (DAG-CBOR does not validate them)
+	for i, bad := range []string{"\xffbc", "ab\xff", "\xc3", "a\xe2\x82", "\xed\xa0\x80x", "\xf0\x9f", "\xff\xfe\xfd", "\x80\x80\x80\x80"} {
+		txt := func(s string) []byte { return append([]byte{0x60 + byte(len(s))}, s...) }
+		m := []byte{0xa2}
+		m = append(append(m, txt("l")...), 0x82)
+		m = append(append(m, txt(bad)...), txt(bad+bad)...)
+		m = append(append(m, txt("s")...), txt(bad)...)
+		out[fmt.Sprintf("data-invalid-utf8-%d", i)] = m
+	}
 	out["cbor-nested-arrays"] = bytes.Repeat([]byte{0x81}, 200000)
 	out["cbor-nested-maps"] = bytes.Repeat([]byte{0xa1, 0x61, 'a'}, 100000)
 	out["cbor-nested-tags"] = bytes.Repeat([]byte{0xd8, 0x2a}, 100000)
